@@ -131,6 +131,26 @@ type instantiator struct {
 	fresh   *int
 	max2    int
 	lens    []string
+	prime   []string // skolem constants (goal and hypotheses): first in the candidate order
+	variants []string // skolem +-1, skolem - length: last in the candidate order
+}
+
+// order fixes the final candidate order: skolems, then the path's index terms, then variants.
+func (in *instantiator) order(path []string) {
+	var out []string
+	seen := map[string]bool{}
+	add := func(xs []string) {
+		for _, x := range xs {
+			if !seen[x] {
+				seen[x] = true
+				out = append(out, x)
+			}
+		}
+	}
+	add(in.prime)
+	add(path)
+	add(in.variants)
+	in.cands = out
 }
 
 // binders returns the names of the binders if all have sort Int; ok=false otherwise.
@@ -235,9 +255,10 @@ func (in *instantiator) skolemize(f *sx) *sx {
 				in.newDecl = append(in.newDecl, fmt.Sprintf("(declare-fun %s () %s)", name, b.list[1].String()))
 				m[b.list[0].atom] = name
 				if b.list[1].isAtom() && b.list[1].atom == "Int" {
-					in.cands = append(in.cands, name, "(- "+name+" 1)", "(+ "+name+" 1)")
+					in.prime = append(in.prime, name)
+					in.variants = append(in.variants, "(- "+name+" 1)", "(+ "+name+" 1)")
 					for _, l := range in.lens {
-						in.cands = append(in.cands, "(- "+name+" "+l+")")
+						in.variants = append(in.variants, "(- "+name+" "+l+")")
 					}
 				}
 			}
@@ -302,7 +323,7 @@ func (in *instantiator) hypSkolem(f *sx, positive bool) (*sx, bool) {
 			in.newDecl = append(in.newDecl, fmt.Sprintf("(declare-fun %s () %s)", name, b.list[1].String()))
 			m[b.list[0].atom] = name
 			if b.list[1].isAtom() && b.list[1].atom == "Int" {
-				in.cands = append([]string{name}, in.cands...)
+				in.prime = append(in.prime, name)
 			}
 		}
 		body, _ := in.hypSkolem(substSx(stripBang(f.list[2]), m), positive)
